@@ -22,6 +22,10 @@ type Task struct {
 	done    bool
 	site    uint32
 	blocked string
+	// timerWoken: the task became runnable while the scheduler was idle
+	// (set by the scheduler, read by the task after it is granted)
+	timerWoken bool
+	seenParked bool
 }
 
 // Event is one entry of the run's history. Seq is the global event sequence
@@ -158,7 +162,7 @@ type Sim struct {
 	nextGroup int
 
 	out          *Outcome
-	stash        map[uintptr][]stashed
+	stash        map[uintptr]*stashed
 	stashN       int
 	abort        bool
 	mainDone     bool
@@ -263,6 +267,7 @@ func allStacks() string {
 }
 
 func (s *Sim) schedule() {
+	fromIdle := false
 	for {
 		synctest.Wait()
 		if s.abort {
@@ -280,10 +285,17 @@ func (s *Sim) schedule() {
 		}
 		var run []*Task
 		for _, t := range s.parked {
+			if fromIdle && !t.seenParked {
+				// nobody held the token while this task was woken: the fake
+				// clock did it (timer, deadline)
+				t.timerWoken = true
+			}
+			t.seenParked = true
 			if !s.frozen[t.Group] {
 				run = append(run, t)
 			}
 		}
+		fromIdle = false
 		var pick *Task
 		if len(run) > 0 {
 			// index 0 (the value served past the end of a replayed tape) is
@@ -315,6 +327,7 @@ func (s *Sim) schedule() {
 				return
 			}
 			<-s.kick
+			fromIdle = true
 			continue
 		}
 		s.out.Steps++
@@ -343,6 +356,7 @@ func (s *Sim) schedule() {
 		}
 		s.last = pick
 		s.cur = pick
+		pick.seenParked = false
 		pick.blocked = ""
 		pick.grant <- struct{}{}
 	}
@@ -524,18 +538,24 @@ func Yield(site uint32) {
 
 // Block releases the token, runs wait (which may block durably in the
 // bubble), then re-acquires the token.
-func Block(site uint32, reason string, wait func()) {
+func Block(site uint32, reason string, wait func()) { block(site, reason, wait) }
+
+// block reports whether the task was woken while the scheduler was idle, i.e.
+// by the fake clock (a timer or a context deadline), not by another task.
+func block(site uint32, reason string, wait func()) (timerWoken bool) {
 	s := S
 	if s == nil {
 		wait()
-		return
+		return false
 	}
 	t := s.release()
 	t.site = site
 	t.blocked = reason
+	t.timerWoken = false
 	s.kickSched()
 	wait()
 	s.park(t)
+	return t.timerWoken
 }
 
 // Sleep is a token-releasing time.Sleep.
